@@ -15,7 +15,7 @@ type zzDelScenario struct {
 	cfg      zzCfg
 	d        *zzMemDS
 	s        *Store[*zh.Hdr]
-	chain    []*zh.Hdr // K stored + 2 continuation headers
+	chain    []*zh.Hdr // K stored + 3 continuation headers
 	K        int
 	split    int // chain[:split] flushed and synced, chain[split:K] appended afterwards (pending unless the batch is full)
 	from, to uint64
@@ -28,7 +28,7 @@ func zzBuildDelScenario(ctx context.Context) *zzDelScenario {
 	sc.cfg = zzPickCfg()
 	sc.d = zzNewMemDS()
 	sc.s = zzOpen(sc.d, sc.cfg)
-	sc.chain = zzChain(sc.cfg.base, sc.K+2)
+	sc.chain = zzChain(sc.cfg.base, sc.K+3)
 	sc.split = zz.Choice("split", sc.K+1)
 	if sc.split > 0 {
 		zz.Assert(sc.s.Append(ctx, sc.chain[:sc.split]...) == nil, "Append ok")
